@@ -78,7 +78,7 @@ def run_tlc(module, cfg, workdir=None, workers=None, timeout=1800, env=None,
     if not os.path.isdir(specdir):
         shutil.copytree(SPEC, specdir)
     meta = tempfile.mkdtemp(prefix="meta-", dir=wd)
-    cmd = ["java", "-XX:+UseParallelGC", "-Xmx8g"]
+    cmd = ["java", "-XX:+UseParallelGC", "-Xmx8g", "-Xss64m"]
     if dfs:
         cmd.append("-Dtlc2.tool.queue.IStateQueue=StateDeque")
     cmd += ["-cp", TLA_CP, "tlc2.TLC",
